@@ -13,16 +13,20 @@ package fasthttp
 // connection) with the set of logs the specification allows for that scenario.
 
 import (
+	"bufio"
 	"bytes"
 	"crypto/tls"
 	"encoding/json"
 	"errors"
 	"fmt"
+	"net"
 	"strings"
 	"sync"
 	"sync/atomic"
 	"testing"
 	"time"
+
+	"github.com/valyala/fasthttp/fasthttputil"
 )
 
 type c21Target struct {
@@ -35,6 +39,7 @@ type c21Op struct {
 	Scheme string      `json:"scheme"`
 	Host   string      `json:"host"`
 	Script []c21Target `json:"script"`
+	Via    string      `json:"via"` // how the request object handed to the entry is obtained
 }
 
 type c21Log struct {
@@ -71,11 +76,90 @@ func (c *c21Case) sig() string {
 	sb.WriteString(c.Entry)
 	for _, o := range c.Ops {
 		fmt.Fprintf(&sb, ";%s:%s://%s", o.Kind, o.Scheme, o.Host)
+		if o.Via != "" && o.Via != "direct" {
+			sb.WriteString("[" + o.Via + "]")
+		}
 		for _, t := range o.Script {
 			fmt.Fprintf(&sb, ">%s://%s", t.Scheme, t.Host)
 		}
 	}
 	return sb.String()
+}
+
+type c21NoLog struct{}
+
+func (c21NoLog) Printf(string, ...any) {}
+
+// c21Derive obtains the request object for URL scheme://host+tag the way `via` says and
+// hands it to use (for the received variants: inside the live server handler).  It reports
+// false if the derivation itself could not be set up (harness problem, never a verdict).
+func c21Derive(env *c21Env, via, scheme, host, tag string, use func(req *Request)) (bool, string) {
+	url := scheme + "://" + host + tag
+	switch via {
+	case "", "direct":
+		var req Request
+		req.SetRequestURI(url)
+		use(&req)
+		return true, ""
+	case "copy-built", "copy-built-touched":
+		var src, out Request
+		src.SetRequestURI(url)
+		if via == "copy-built-touched" {
+			src.URI()
+		}
+		src.CopyTo(&out)
+		use(&out)
+		return true, ""
+	}
+	// received over a connection of that scheme by a live server
+	target := tag
+	if strings.HasPrefix(via, "copy-recv-rewrite") {
+		target = "/c21orig"
+	}
+	ran := false
+	srv := &Server{Logger: c21NoLog{}, NoDefaultServerHeader: true, Handler: func(ctx *RequestCtx) {
+		ran = true
+		switch via {
+		case "recv":
+			use(&ctx.Request)
+		case "copy-recv":
+			var out Request
+			ctx.Request.CopyTo(&out)
+			use(&out)
+		case "copy-recv-rewrite", "copy-recv-rewrite-touched":
+			ctx.Request.SetRequestURI(tag) // the path-mapping step of a forwarder
+			if via == "copy-recv-rewrite-touched" {
+				ctx.Request.URI()
+			}
+			var out Request
+			ctx.Request.CopyTo(&out)
+			use(&out)
+		}
+	}}
+	pc := fasthttputil.NewPipeConns()
+	var sc, cc net.Conn = pc.Conn2(), pc.Conn1()
+	if scheme == "https" {
+		sc = tls.Server(sc, env.srvConf)
+		conf := env.cliConf.Clone()
+		conf.ServerName = host
+		cc = tls.Client(cc, conf)
+	}
+	served := make(chan struct{})
+	go func() { srv.ServeConn(sc); close(served) }() //nolint:errcheck
+	cc.SetDeadline(time.Now().Add(120 * time.Second)) //nolint:errcheck
+	if _, err := fmt.Fprintf(cc, "GET %s HTTP/1.1\r\nHost: %s\r\n\r\n", target, host); err != nil {
+		cc.Close()
+		<-served
+		return false, "write to the receiving server: " + err.Error()
+	}
+	var rs Response
+	rerr := rs.Read(bufio.NewReader(cc))
+	cc.Close()
+	<-served
+	if !ran {
+		return false, fmt.Sprintf("the receiving server never called the handler (%v)", rerr)
+	}
+	return true, ""
 }
 
 type c21Stats struct {
@@ -162,19 +246,23 @@ func c21Run(env *c21Env, cs *c21Case, st *c21Stats) {
 		served = 0
 		mu.Unlock()
 		before := len(nw.Requests())
-		var req Request
 		var resp Response
-		req.SetRequestURI(op.Scheme + "://" + op.Host + nextTag(op.Scheme))
 		var err error
-		if op.Kind == "redir" {
-			r, ok := entry.(c21Redirector)
-			if !ok {
-				vfInfra("C21: entry " + cs.Entry + " has no DoRedirects")
-				return
+		okD, why := c21Derive(env, op.Via, op.Scheme, op.Host, nextTag(op.Scheme), func(req *Request) {
+			if op.Kind == "redir" {
+				r, ok := entry.(c21Redirector)
+				if !ok {
+					err = errors.New("c21: entry has no DoRedirects")
+					return
+				}
+				err = r.DoRedirects(req, &resp, 8)
+			} else {
+				err = entry.Do(req, &resp)
 			}
-			err = r.DoRedirects(&req, &resp, 8)
-		} else {
-			err = entry.Do(&req, &resp)
+		})
+		if !okD {
+			vfInfra("C21: " + why + " " + sig)
+			return
 		}
 		urls := append([]c21Target{{op.Scheme, op.Host}}, op.Script...)
 		reqs := nw.Requests()[before:]
